@@ -214,7 +214,7 @@ class LoaderEngine(VectorEngine):
 
     kinds = ["use", "forward", "import", "loadcss"]
     trace = ("Trace_Loader", "Trace_Loader.cfg")
-    random_n = {"quick": 600, "thorough": 3000}
+    random_n = {"quick": 600, "thorough": 1200}
 
     def replay(self, ctx, rep):
         c = dict(rep["rendered"]); c["id"] = "replay"
@@ -257,7 +257,7 @@ class C02(LoaderEngine):
 class C03(LoaderEngine):
     prop = "C03"
     kinds = ["use", "forward"]
-    rule = ("@use/@forward graphs built by MC_Loader.tla (quick: <= 2 statements x 4 URL spellings (t, ./t, detour, t.scss) and <= 3 statements x 2 spellings over 3 files of which one lives in a subdirectory; thorough: the same graphs and five times as many random graphs (the larger configurations MC_Loader_C03_t3/_t.cfg exceed an hour); formerly planned: 3 statements x 4 spellings, 4 statements x 3); every module "
+    rule = ("@use/@forward graphs built by MC_Loader.tla (quick: <= 2 statements x 4 URL spellings (t, ./t, detour, t.scss) and <= 3 statements x 2 spellings over 3 files of which one lives in a subdirectory; thorough: the same graphs and twice as many random graphs (the larger configurations MC_Loader_C03_t3/_t.cfg exceed an hour); formerly planned: 3 statements x 4 spellings, 4 statements x 3); every module "
             "emits a marker rule; non-trivial = at least one load statement; distinct = distinct graph. Compared: outcome class and, for successful runs, "
             "how often each file's marker appears in the CSS (= how often the Loader machine executed it). InitStart/CacheHit hook events of every run are "
             "validated against the machine by Trace_Loader.tla, whose invariant InitOnce is evaluated after every event. Flow B: random use/forward graphs over 4 files.")
